@@ -169,8 +169,70 @@ def _(ctx):
 # ---------------------------------------------------------------------------------------------------
 # error codes
 # ---------------------------------------------------------------------------------------------------
+ONSHELL_REPLAY = r'''
+#include "gm2calc/MSSMNoFV_onshell.h"
+#include "gm2calc/MSSMNoFV_onshell.hpp"
+#include "gm2calc/gm2_error.hpp"
+#include <cstdio>
+#include <cstring>
+#include <cmath>
+// REAL C wrapper against the REAL C++ method on a COPY of the same object: gm2calc_mssmnofv_convert_to_onshell(m) vs copy.convert_to_onshell()
+// (and the _params variant vs convert_to_onshell(p, n)) on pole-mass sets for which the (Mu, M1, M2) iteration converges slowly or not at all
+struct P { double tb, mu, m1, m2, mcha[2], mchi[4], msvm, msm[2]; };
+static const P pts[] = {
+   {40, 500, 200, 400, {4.09989890e+02, 5.46057190e+02}, {2.01611468e+02, 4.10040273e+02, -5.16529941e+02, 5.45628749e+02}, 5.18860573e+02, {5.05095249e+02, 5.25187016e+02}},
+   {59.332297290189103, 507.8951320755653, 463.14348070466144, 737.46773973080997, {326.67633549170432, 448.17756418254919}, {770.00101596912259, 410, -516, 545}, 961.00672177313004, {644.1831789185261, 692.19335159333082}},
+   {28.116063766402373, -768.628854906058, 784.7599555234915, 199.31025805603042, {846.4728260926654, 958.51319609833718}, {863.61783535099016, 410, -516, 545}, 343.42930600187822, {420.82518149197119, 692.39870368418281}},
+   {27.157017808371798, 839.67406808651356, 498.62079417562791, 562.59308270360646, {295.41521560291721, 418.7162900927791}, {156.07173855568621, 410, -516, 545}, 399.83536460558048, {722.24773948292705, 821.02341336653399}},
+};
+static void setup(MSSMNoFV_onshell* m, const P& p) {
+   gm2calc_mssmnofv_set_alpha_MZ(m, 0.00775531); gm2calc_mssmnofv_set_alpha_thompson(m, 0.00729735); gm2calc_mssmnofv_set_g3(m, std::sqrt(4*3.14159265358979323846*0.1184));
+   gm2calc_mssmnofv_set_MT_pole(m, 173.34); gm2calc_mssmnofv_set_MB_running(m, 4.18); gm2calc_mssmnofv_set_MM_pole(m, 0.1056583715); gm2calc_mssmnofv_set_ML_pole(m, 1.777);
+   gm2calc_mssmnofv_set_MW_pole(m, 80.385); gm2calc_mssmnofv_set_MZ_pole(m, 91.1876); gm2calc_mssmnofv_set_MSvmL_pole(m, p.msvm);
+   for (unsigned i = 0; i < 2; i++) gm2calc_mssmnofv_set_MSm_pole(m, i, p.msm[i]);
+   for (unsigned i = 0; i < 4; i++) gm2calc_mssmnofv_set_MChi_pole(m, i, p.mchi[i]);
+   for (unsigned i = 0; i < 2; i++) gm2calc_mssmnofv_set_MCha_pole(m, i, p.mcha[i]);
+   gm2calc_mssmnofv_set_MAh_pole(m, 1500); gm2calc_mssmnofv_set_TB(m, p.tb); gm2calc_mssmnofv_set_Mu(m, p.mu); gm2calc_mssmnofv_set_MassB(m, p.m1);
+   gm2calc_mssmnofv_set_MassWB(m, p.m2); gm2calc_mssmnofv_set_MassG(m, 2000);
+   for (unsigned i = 0; i < 3; i++) { gm2calc_mssmnofv_set_mq2(m, i, i, 49e6); gm2calc_mssmnofv_set_md2(m, i, i, 49e6); gm2calc_mssmnofv_set_mu2(m, i, i, 49e6);
+      gm2calc_mssmnofv_set_ml2(m, i, i, 25e4); gm2calc_mssmnofv_set_me2(m, i, i, 25e4); }
+   gm2calc_mssmnofv_set_Au(m, 2, 2, 0); gm2calc_mssmnofv_set_Ad(m, 2, 2, 0); gm2calc_mssmnofv_set_Ae(m, 1, 1, 0); gm2calc_mssmnofv_set_Ae(m, 2, 2, 0); gm2calc_mssmnofv_set_scale(m, 1000);
+}
+static bool same(double a, double b) { return std::memcmp(&a, &b, sizeof a) == 0 || (std::isnan(a) && std::isnan(b)); }
+int main() {
+   int bad = 0, k = 0;
+   for (const auto& p : pts) {
+      for (int variant = 0; variant < 2; variant++) {
+         MSSMNoFV_onshell* m = gm2calc_mssmnofv_new(); setup(m, p);
+         gm2calc::MSSMNoFV_onshell copy(*reinterpret_cast<gm2calc::MSSMNoFV_onshell*>(m));
+         int ec = variant == 0 ? gm2calc_mssmnofv_convert_to_onshell(m) : gm2calc_mssmnofv_convert_to_onshell_params(m, 1e-6, 300);
+         int ecpp = 0;
+         try { if (variant == 0) copy.convert_to_onshell(); else copy.convert_to_onshell(1e-6, 300); }
+         catch (const gm2calc::EInvalidInput&) { ecpp = 1; } catch (const gm2calc::EPhysicalProblem&) { ecpp = 2; } catch (...) { ecpp = 3; }
+         const double c[4] = {gm2calc_mssmnofv_get_Mu(m), gm2calc_mssmnofv_get_MassB(m), gm2calc_mssmnofv_get_MassWB(m), gm2calc_mssmnofv_get_me2(m, 1, 1)};
+         const double x[4] = {copy.get_Mu(), copy.get_MassB(), copy.get_MassWB(), copy.get_me2(1, 1)};
+         const char* nm[4] = {"Mu", "MassB", "MassWB", "me2(1,1)"};
+         for (int i = 0; i < 4; i++) if (!same(c[i], x[i])) { bad++; std::printf("point %d %s: %s after the C call %.17g, after the C++ call %.17g\n", k, variant ? "convert_to_onshell_params(1e-6,300)" : "convert_to_onshell()", nm[i], c[i], x[i]); }
+         if ((ec != 0) != (ecpp != 0)) { bad++; std::printf("point %d: C error code %d, C++ outcome %d\n", k, ec, ecpp); }
+         if ((gm2calc_mssmnofv_have_warning(m) != 0) != copy.get_problems().have_warning()) { bad++; std::printf("point %d: warning status differs between C and C++\n", k); }
+         gm2calc_mssmnofv_free(m);
+      }
+      k++;
+   }
+   std::printf("%d differences between the C wrapper and the C++ method\n", bad);
+   return bad ? 1 : 0;
+}
+'''
+
+def onshell_replay(model, wd):
+    from gm2v import native
+    import subprocess
+    exe = native.build_against_library(wd, ONSHELL_REPLAY, name='onshell_c')
+    r = subprocess.run([exe], capture_output=True, text=True, timeout=300)
+    return r.returncode == 1, r.stdout.strip()[-1500:]
+
 @obligation('C17.error_codes', fns=[(MC, 'gm2calc_mssmnofv_convert_to_onshell'), (MC, 'gm2calc_mssmnofv_convert_to_onshell_params'), (MC, 'gm2calc_mssmnofv_calculate_masses'),
-                                    ('src/THDM/THDM_c.cpp', 'gm2calc_thdm_new_with_gauge_basis'), ('src/THDM/THDM_c.cpp', 'gm2calc_thdm_new_with_mass_basis')])
+                                    ('src/THDM/THDM_c.cpp', 'gm2calc_thdm_new_with_gauge_basis'), ('src/THDM/THDM_c.cpp', 'gm2calc_thdm_new_with_mass_basis')], replay=onshell_replay)
 def _(ctx):
     """the C++ method throws EInvalidInput / EPhysicalProblem / any other exception / nothing  ==>  the wrapper returns
     gm2calc_InvalidInput / gm2calc_PhysicalProblem / gm2calc_UnknownError / gm2calc_NoError (one-to-one), never throws itself"""
@@ -181,13 +243,15 @@ def _(ctx):
                        ('gm2calc_mssmnofv_calculate_masses', 'MSSMNoFV_onshell::calculate_masses')):
         fd = [f for f in ctx.w.find(fn, MC) if f.extern_c][0]
         for exc, code in want.items():
-            def stub(i, a, t, exc=exc):
+            got = []
+            def stub(i, a, t, exc=exc, got=got):
+                got.append((t, list(a)))
                 if exc is not None:
                     raise Thrown(exc, 'ghost')
                 return None
             it = Interp(ctx.w, mode='sym', stubs={callee: stub})
             m = Obj('MSSMNoFV_onshell', {})
-            extra = [z3.Real('precision'), 100][:len(fd.params) - 1]
+            extra = [z3.Real('precision'), z3.Int('max_iterations')][:len(fd.params) - 1]
             try:
                 ps = it.run_paths(lambda: it.invoke(fd, [m] + extra, None))
                 ok = len(ps) == 1 and ps[0][2] is None and ps[0][1] == code
@@ -195,6 +259,25 @@ def _(ctx):
             except Thrown as t:
                 ok, det = False, 'exception %s escapes' % t.cls
             ctx.record('%s.%s' % (fn, exc or 'no_exception'), PROVED if ok else FAILED, 'B', 0, det + ' (expected %s)' % code)
+            if exc is None:
+                # faithful mirror: the C++ method is called ONCE, on the same object, with exactly the wrapper's own arguments in order; arguments the wrapper does not
+                # have are left to the C++ DEFAULTS of the public header (the C call without parameters behaves like the C++ call without parameters)
+                decl = [f for f in ctx.w.find(callee.split('::')[-1]) if strip_ns_(f.qname).endswith(callee) and any(p.default is not None for p in f.params)]
+                defaults = []
+                if decl:
+                    itd = Interp(ctx.w, mode='sym')
+                    defaults = [itd.run_single(lambda p=p: itd.ev(p.default)) if p.default is not None else None for p in decl[0].params]
+                eff = None
+                if len(got) == 1:
+                    eff = list(got[0][1]) + defaults[len(got[0][1]):]
+                want_args = list(extra) + defaults[len(extra):]
+                def same(a, b):
+                    if is_sym(a) or is_sym(b):
+                        return is_sym(a) and is_sym(b) and z3.is_true(z3.simplify(z3real(a) == z3real(b)))
+                    return a is not None and b is not None and Fr(a) == Fr(b)
+                okm = eff is not None and got[0][0] is m and len(eff) == len(want_args) and all(same(a, b) for a, b in zip(eff, want_args))
+                ctx.record('%s.arguments' % fn, PROVED if okm else FAILED, 'B', 0, 'C++ %s receives %s (after default expansion); faithful mirror requires %s' % (callee, eff, want_args),
+                           model=None if okm else {'_forwarder': fn})
 
 def _register2():
     from gm2v.ob import get_world
